@@ -94,6 +94,8 @@ func (a Arg) Y() *Y {
 		return Scalar(strconv.FormatBool(a.B))
 	case "null":
 		return Scalar("~")
+	case "yaml":
+		return Scalar(a.S) // verbatim YAML: whatever type the decoder makes of it
 	}
 	return Str(a.Text())
 }
